@@ -7,6 +7,35 @@ ALL = ["C%02d" % i for i in range(1, 21)]
 
 # id -> (category, level text, level note, technique, design_ref)
 CHECKS = {
+ "C01": ("exploration",
+         "Round-trip monitor over executions of the real writer and reader: an exhaustive sweep of element kind x optional-record subset x strans variant x property count, limit probes around the 65535-byte record limit, and seeded random libraries (hostile strings, full i32 coordinates, whole real range) are written with GdsLibrary::write/save and read back with from_bytes/open; the result must be field-for-field equal (reals by bit pattern). Held on the executions observed.",
+         "Domain: strings ending in NUL at even length and out-of-range reals excluded; a write returning Err satisfies the statement (non-vacuity is checked: <90% successful in-limit writes => inconclusive).",
+         "runtime monitoring: write/read round-trip oracle over swept + random library values", "DESIGN.md 3 C01"),
+ "C02": ("exploration",
+         "Every stream the real writer produces for the same library space as C01 is parsed by an independent strict GDSII decoder (framing, spec record/data types, BNF order, ENDLIB last) and its neutral AST compared with the AST computed directly from the input value (exact normalised reals, STRANS bits, COLROW order, date order, NUL padding).",
+         "Trusted base: harness/src/refs/gdsstream.rs + refs/gdsreal.rs, written from the Calma specification, cross-checked against the repository's foreign .gds files that are in BNF order.",
+         "runtime monitoring: independent-decoder oracle on the writer's output", "DESIGN.md 3 C02"),
+ "C03": ("exploration",
+         "Streams generated from the GDSII grammar by an independent encoder (every element kind, every optional-record subset, strans variants, strings of all parities incl. empty, arbitrary dates, reals with up to 56 significant bits, 0..4096 trailing bytes) are fed to from_bytes/open; the value returned must equal the value the stream denotes; streams with unsupported library-level records must be rejected without panic.",
+         "Only BNF-ordered streams the reference encoder can produce are claimed; trusted base as C02.",
+         "runtime monitoring: reference-encoder differential oracle on the reader", "DESIGN.md 3 C03"),
+ "C10": ("fault_enumeration",
+         "Fault enumeration on the real reader: every truncation point of each seed stream and, for every record, every listed single-record fault (length, payload, record type, data type, delete/duplicate/swap/splice), plus byte flips, noise and size scaling. Each execution runs under a panic guard and a logical step budget counted by hooks (records read, parser steps); strict prefixes must be rejected; every accepted input must survive write->read unchanged.",
+         "'Time proportional to length' is decided as bounded progress on hook-counted steps; wall-clock only as watchdog (inconclusive). Memory-safety clause: gds21 has no unsafe; sanitizer legs are secondary.",
+         "runtime monitoring: fault injection + panic/step-budget monitors + closure oracle", "DESIGN.md 3 C10"),
+ "C12": ("exploration",
+         "All 14^d right-angle placement words for d<=4 (exhaustive) with integer offsets, applied to a full point grid, through Transform::from_instance/cascade/Point::transform and through Layout::flatten of the nested hierarchy, compared with exact integer maps; large coordinates and general angles by seeded sampling against a range-reduced reference.",
+         "Angle = degrees counter-clockwise, reflection about x applied first (as documented). General angles judged to 0.5+1e-5 units.",
+         "runtime monitoring: exact integer-map oracle over exhaustive placement chains", "DESIGN.md 3 C12"),
+ "C13": ("exploration",
+         "Exhaustive: every rectangle and every simple polygon with up to 5 (quick) / 6 (thorough) vertices on the 4x4 grid, in every vertex order, queried at all 36 surrounding grid points, plus repeated- and collinear-vertex variants; seeded random polyomino outlines, 45-degree and star-shaped polygons and Manhattan paths queried on/near/far from their boundary. Every contains() answer is compared with exact integer geometry.",
+         "Path end-cap / outer-corner band not judged (raw Path has no end style). Trusted: refs/geom.rs.",
+         "runtime monitoring: exact-geometry oracle over exhaustive small shapes + random large ones", "DESIGN.md 3 C13"),
+ "C17": ("exploration",
+         "Generic helper: every digraph on 4 nodes (with self-loops) under every full and partial listing, every loop-free 5-node digraph in all orders (thorough), with the hook event trace of every 4-node run checked offline against the orderer's trace specification; embedded orderers (raw DepOrder, to_proto cell order, from_gds import order) on every 4-node DAG in all listings and random DAGs/cyclic graphs to 300 nodes, cyclic ones in isolated child processes.",
+         "Tetris orderers are covered by the tetris-* generators once built. Orderers returning Vec have no error channel: any return on a cycle, or a crash, is a violation (two open known findings).",
+         "runtime monitoring: order validator + offline trace checker over exhaustive small digraphs; crash isolation", "DESIGN.md 3 C17"),
+
  "C15": ("exploration",
          "Reference-model monitor over executions of the real codec: every in-range power of two with its +-8-ulp neighbourhood (exhaustive over exponents), all one/two-bit normalised mantissas x all exponents, and millions of seeded random doubles / 8-byte reals are pushed through GdsFloat64::encode/decode and through UNITS/MAG/ANGLE records, each compared bit-for-bit with an exact integer codec. Held-on-what-was-observed, not a proof: the space is 2^64.",
          "Trusted: harness/src/refs/gdsreal.rs (integer-only reference, unit-tested); +0/-0 identified; native build (Miri perturbs powi/log2).",
